@@ -3642,7 +3642,11 @@ fn create_joined_batch(
             .columns()
             .iter()
             .map(|col| {
-                if dict_encode && col.data_type() == &arrow::datatypes::DataType::Utf8 {
+                if dict_encode
+                    && col.data_type() == &arrow::datatypes::DataType::Utf8
+                    // a NULL build value behind a valid key reads as "" downstream
+                    && col.null_count() == 0
+                {
                     let keys: arrow::array::Int32Array =
                         take_arr.iter().map(|v| v.map(|u| u as i32)).collect();
                     arrow::array::DictionaryArray::try_new(keys, col.clone())
@@ -3769,7 +3773,11 @@ fn create_joined_batch_u32(
             .columns()
             .iter()
             .map(|col| {
-                if dict_encode && col.data_type() == &arrow::datatypes::DataType::Utf8 {
+                if dict_encode
+                    && col.data_type() == &arrow::datatypes::DataType::Utf8
+                    // a NULL build value behind a valid key reads as "" downstream
+                    && col.null_count() == 0
+                {
                     let keys: arrow::array::Int32Array =
                         take_arr.iter().map(|v| v.map(|u| u as i32)).collect();
                     arrow::array::DictionaryArray::try_new(keys, col.clone())
@@ -3904,7 +3912,11 @@ fn create_build_only_batch(
             .columns()
             .iter()
             .map(|col| {
-                if dict_encode && col.data_type() == &arrow::datatypes::DataType::Utf8 {
+                if dict_encode
+                    && col.data_type() == &arrow::datatypes::DataType::Utf8
+                    // a NULL build value behind a valid key reads as "" downstream
+                    && col.null_count() == 0
+                {
                     let keys: arrow::array::Int32Array =
                         take_arr.iter().map(|v| v.map(|u| u as i32)).collect();
                     arrow::array::DictionaryArray::try_new(keys, col.clone())
